@@ -248,7 +248,7 @@ func TestVerifC08(t *testing.T) {
 	defer pilosa.SetVerifHook(nil)
 	gen := 0
 
-	n := r.N(96, 12000)
+	n := r.N(96, 3840)
 	r.Cases("hist", n, func(i int, id string, rng *vk.Rand) {
 		gen++
 		cs := c08Case{}
